@@ -57,7 +57,7 @@ func verifCanary(label string, cond bool) {}
 //@   assigns nothing
 
 //@ func (*Conn).Handshake
-//@   props C06 C05
+//@   props C06 C05 C23
 //@   bytes
 //@   requires connInv(c) && c.TCPConn != nil && ctx != nil
 //@   let pos = io.streamPos(c)
